@@ -546,7 +546,7 @@ def one_case(ctx, c):
         judge_projection(ctx, SP, SU, R, iN, iP, W, coords)
 
 
-QUICK_TOTAL, THOROUGH_TOTAL = 6000, 320000
+QUICK_TOTAL, THOROUGH_TOTAL = 16000, 800000
 
 
 def run_shard(ctx):
